@@ -403,6 +403,25 @@ VariablesStack::findXObject(
                         doc);
                 }
 
+                // The definition is evaluated through XPath::execute() or
+                // by instantiating its content, and a reference to another
+                // top-level variable that has no value yet comes back here:
+                // the nesting is as deep as the chain of such references.
+                if (m_guardStack.size() >= eMaximumVariableNestingDepth)
+                {
+                    const StylesheetExecutionContext::GetCachedString   theGuard(executionContext);
+
+                    executionContext.problem(
+                        StylesheetExecutionContext::eXSLTProcessor,
+                        StylesheetExecutionContext::eError,
+                        XalanMessageLoader::getMessage(
+                            theGuard.get(),
+                            XalanMessages::InfiniteRecursion_1Param,
+                            var->getElementName()),
+                        var->getLocator(),
+                        doc);
+                }
+
                 m_guardStack.push_back(var);
 
 #if !defined(XALAN_RECURSIVE_STYLESHEET_EXECUTION)
